@@ -52,43 +52,35 @@ def run(chk):
         raise AnalysisError(f"{mvf.key}: no call of clean_billing_daily_data found in the interpreted result (anchor changed)")
 
     # ------------------------------------------------------------------ R08.1 clean_billing_data
+    # interpreted under the one-row abstraction (rules/billingclean_absint.py): an interior billing period of d days, for d on each side of
+    # every published limit and both granularities: the period's usage is kept iff lo <= d <= hi, otherwise it stays a row holding NaN and
+    # the off-cycle warning fires
     cb = chk.repo.func(DPU, "clean_billing_data")
-    cfg = CFG(cb.node)
-    P, IV = cb.params[0], cb.params[1]  # the frame and the interval name (positional API)
-    res, _so = make_resolver(cb.node)
-    from engine.pattern import Expander
-    cbx = Expander(cb.node)
-    pc = PatCtx(cb.node)
-    ok_len = pc.has(f"_F_ = pd.Series(list(({P}.index[1:] - {P}.index[:-1]).days) + [np.nan], index={P}.index)")
-    r1.require(ok_len, f"{cb.key}|period-length", cb.where(),
-               "period length must be the forward difference of the read dates in days, aligned on the period's start (NaN for the open last period)")
-    F = pc.name("_F_", "filter_")
-    spec = {"billing_monthly": (25.0, 35.0), "billing_bimonthly": (25.0, 70.0)}
-    found: Dict[str, Dict[str, object]] = {}
-    for s in cfg.stmts():
-        gl = [const_str(t.comparators[0]) for t, pol in cfg.guards(s) if pol and isinstance(t, ast.Compare) and unparse(t.left) == IV and isinstance(t.ops[0], ast.Eq)]
-        if not gl:
+    from rules.billingclean_absint import VALUE as BVALUE, outcomes as billing_clean_outcomes
+    spec = {"billing_monthly": (25, 35), "billing_bimonthly": (25, 70)}
+    OFFW = "eemeter.sufficiency_criteria.offcycle_reads_in_billing_monthly_data"
+    bad_keep: Dict[str, List[str]] = {}
+    bad_warn: Dict[str, List[str]] = {}
+    n_bc = 0
+    for o in billing_clean_outcomes(chk):
+        n_bc += 1
+        iv, d = o["interval"], o["days"]
+        lo, hi = spec[iv]
+        want = lo <= d <= hi
+        if "raises" in o or "returns" in o:
+            bad_keep.setdefault(iv, []).append(f"a period of {d} days: {o.get('raises') or o.get('returns')}")
             continue
-        iv = gl[0]
-        if isinstance(s, ast.Assign) and unparse(s.targets[0]) == P and isinstance(s.value, ast.Call) and isinstance(s.value.func, ast.Attribute) and s.value.func.attr == "reindex" \
-                and [unparse(a) for a in s.value.args] == [f"{P}.index"]:
-            sub = s.value.func.value
-            if isinstance(sub, ast.Subscript) and unparse(sub.value) in (P, P + ".loc"):
-                found.setdefault(iv, {})["keep"] = (mask_terms(sub.slice, res, s), s)
-        if isinstance(s, ast.If):
-            test_x = cbx.expand(s.test, s)  # `off = data[mask]; if len(off) > 0:` reads like `if len(data[mask]) > 0:`
-            sub = [n for n in ast.walk(test_x) if isinstance(n, ast.Subscript) and unparse(n.value) in (P, P + ".loc") and mask_terms(n.slice, res, s) is not None]
-            if sub and any(isinstance(c, ast.Call) and unparse(c.func).endswith("warnings.append") for b in s.body for c in ast.walk(b)):
-                found.setdefault(iv, {})["warn"] = (mask_terms(sub[0].slice, res, s), s)
+        if want and not o["kept"]:
+            bad_keep.setdefault(iv, []).append(f"a period of {d} days is {'dropped' if not o['present'] else 'blanked'} (it is within {lo}..{hi} days)")
+        if not want and (o["kept"] or not o["present"] or o["value"] is not None):
+            bad_keep.setdefault(iv, []).append(f"a period of {d} days (off-cycle) " + ("keeps its usage" if o["kept"] else ("is removed from the frame instead of being blanked" if not o["present"] else f"holds {o['value']}")))
+        if (OFFW in o["warned"]) != (not want) or [w for w in o["warned"] if w != OFFW]:
+            bad_warn.setdefault(iv, []).append(f"a period of {d} days: warnings {o['warned']}")
     for iv, (lo, hi) in spec.items():
-        k = found.get(iv, {}).get("keep")
-        w = found.get(iv, {}).get("warn")
-        want_keep = ("and", {(F, "<=", hi), (F, ">=", lo)})
-        want_warn = ("or", {(F, ">", hi), (F, "<", lo)})
-        r1.require(k is not None and k[0] == want_keep, f"{cb.key}|{iv}|keep", cb.where(k[1]) if k else cb.where(),
-                   f"clean_billing_data ({iv}): periods kept must be {lo:g} <= days <= {hi:g}; found {k[0] if k else None}", sample={"interval": iv, "keep": sorted(k[0][1]) if k and k[0] else None})
-        r1.require(w is not None and w[0] == want_warn, f"{cb.key}|{iv}|warn", cb.where(w[1]) if w else cb.where(),
-                   f"clean_billing_data ({iv}): the off-cycle warning must fire on the complement (days > {hi:g} or days < {lo:g}); found {w[0] if w else None}")
+        r1.require(iv not in bad_keep, f"{cb.key}|{iv}|keep", cb.where(), f"clean_billing_data ({iv}): periods kept must be {lo} <= days <= {hi}; interpreted: {bad_keep.get(iv, [])[:3]}",
+                   sample={"interval": iv, "keep": [lo, hi]})
+        r1.require(iv not in bad_warn, f"{cb.key}|{iv}|warn", cb.where(), f"clean_billing_data ({iv}): the off-cycle warning must fire exactly on the complement (days > {hi} or days < {lo}); interpreted: {bad_warn.get(iv, [])[:3]}")
+    r1.inst(f"{cb.key}|period-length[{n_bc}]", {"interpreted_periods": n_bc})
     # downsample 50 % rule
     ds = chk.repo.func(DPU, "downsample_and_clean_daily_data")
     # interpreted under the one-row abstraction (rules/downsample_absint.py): a day of coverage c and rolled-up value v
